@@ -1,3 +1,6 @@
+import reprlib
+
+
 class NotReadyError(Exception):
     pass
 
@@ -183,6 +186,7 @@ class Deferred(BaseDeferred):
             return tmp.wait()
         return tmp
 
+    @reprlib.recursive_repr()
     def __repr__(self):
         if self.settled:
             return f"{self.name}[={self.value!r}]"
